@@ -116,7 +116,8 @@ def generate(rng: random.Random, tier: str, seed: int) -> dict:
         elif kind == "runspace_malformed":
             c["how"] = rng.choice(["unequal_lengths", "duplicate_keys", "bad_mode", "bad_combine", "zip_blocks_unequal",
                                    "duplicate_key_via_source", "duplicate_key_via_source_rename", "duplicate_key_context_vs_source",
-                                   "by_position_empty_source", "by_position_empty_context"])
+                                   "by_position_empty_source", "by_position_empty_context",
+                                   "rename_onto_later_column", "rename_onto_earlier_column"])
         elif kind == "runspace_over_cap":
             c["how"] = rng.choice(["block_max_runs", "cli_max_runs", "block_max_runs_0", "cli_max_runs_0", "cli_max_runs_product_minus_1"])
             c["via_rs_file"] = rng.random() < 0.3       # the run space itself comes from --run-space-file
@@ -128,7 +129,7 @@ def generate(rng: random.Random, tier: str, seed: int) -> dict:
             c["nruns"] = rng.randint(2, 4)
             c["fail_at"] = rng.choice([None] + list(range(4)))
             c["node"] = rng.randrange(n)
-            c["fault"] = rng.choice(["exception", "exception", "kbint"])
+            c["fault"] = rng.choice(["exception", "exception", "kbint", "abort", "sysexit"])
         elif kind == "set_override":
             c["how"] = rng.choice(["valid_value", "unknown_processor", "unknown_key"])
         cases.append(c)
@@ -271,6 +272,11 @@ def run_case(sc: dict, c: dict, w, stats: dict, idx: int) -> list[dict]:
         elif how == "duplicate_key_context_vs_source":
             extra_files["dup.csv"] = "rs_a\n5.0\n"
             run_space = {"blocks": [{"mode": "by_position", "context": {"rs_a": [1.0]}, "source": {"format": "csv", "path": "dup.csv"}}]}
+        elif how in ("rename_onto_later_column", "rename_onto_earlier_column"):
+            # a column renamed onto the name of another (not renamed) column of the same file, in either column order
+            hdr = "rs_a,rs_b" if how == "rename_onto_later_column" else "rs_b,rs_a"
+            extra_files["collide.csv"] = hdr + "\n1.0,2.0\n3.0,4.0\n"
+            run_space = {"blocks": [{"mode": "by_position", "source": {"format": "csv", "path": "collide.csv", "rename": {"rs_a": "rs_b"}}}]}
         elif how == "by_position_empty_source":
             extra_files["empty.csv"] = "rs_b\n"            # header only: the source side expands to zero runs
             run_space = {"blocks": [{"mode": "by_position", "context": {"rs_a": [1.0, 2.0, 3.0]}, "source": {"format": "csv", "path": "empty.csv"}}]}
@@ -374,6 +380,10 @@ def run_case(sc: dict, c: dict, w, stats: dict, idx: int) -> list[dict]:
         stats[f"fault.{c['fault']}"] = stats.get(f"fault.{c['fault']}", 0) + 1
     out = []
     code = r["code"]
+    if isinstance(code, str) and faults and r.get("exc") is not None and r["exc"] is w.last_injected:
+        # the node's own BaseException-class abort left cli.main: the process dies of it (traceback, status 1) - a non-zero exit
+        code = 1
+        stats["probe.abort_propagated_out_of_cli"] = stats.get("probe.abort_propagated_out_of_cli", 0) + 1
     where = f"case {label}: argv={argv[:6]}... exit={code} stderr={r['stderr'][:160]!r}"
     if c.get("subprocess_crosscheck") and not faults and not isinstance(code, str):
         _crosscheck_subprocess(w, name, argv, code, new_files, stats)
